@@ -3,7 +3,7 @@
 # the result lines of tools/benign_run.sh (/tmp/benign/Bn.results, rerun.results) to /verif/seeded/benign/
 set -u
 dst=/verif/seeded/benign; mkdir -p $dst
-for b in B1 B2 B3 B4 B5; do
+for b in B1 B2 B3 B4 B5 B6 B7 B8; do
   [ -d /tmp/benign/$b ] || continue
   mkdir -p $dst/$b
   cp /tmp/benign/$b/patch*.diff $dst/$b/ 2>/dev/null
